@@ -2,7 +2,7 @@ package main
 
 func propSpecs() map[string]*PropSpec {
 	m := map[string]*PropSpec{}
-	for _, s := range []*PropSpec{specC17(), specC09(), specC02()} {
+	for _, s := range []*PropSpec{specC17(), specC09(), specC02(), specC01(), specC04(), specC05(), specC06(), specC07(), specC08(), specC18(), specC03(), specC14(), specC15(), specC10(), specC11()} {
 		m[s.ID] = s
 	}
 	return m
@@ -44,6 +44,7 @@ func specC09() *PropSpec {
 				Desc: "same, every id of every accepted built-in set", Bounds: b},
 			{Harness: "VerifC09InsertPointSynthetic", Pkg: "pointindex", Mode: "math", Tiers: "both", Covers: []string{"accepted", "rejected"},
 				Desc: "same on synthetic dyadic grids with zero, negative, fractional and large origins", Bounds: b},
+			pipeObl("VerifC09Snap", "both", "O-4: SnapPolygon with vertices up to one pixel outside either corner of the grid: panic with OutsideGridError, or empty result when ignoring", "triangle, 3x3 px windows at both grid corners reaching one pixel outside, positions {0,1/2}, both flag values", "outside", "inside"),
 		},
 		Assumptions: []string{
 			"float step of intgeom.FromGeomOrd abstracted in the integer obligations (harness quantifies over the resulting int64); the float step is a separate obligation",
@@ -64,9 +65,179 @@ func specC02() *PropSpec {
 				Subst: map[string]string{"pointindex.lineIntersects": "pointindex.verifLineIntersectsContract"},
 				Desc: "one quadtree descent step: arbitrary parent, occupancy and segment meeting the parent => exactly the occupied children met, in order of travel",
 				Bounds: "all integers |c| <= 2^58, half span 1..2^58, all 16 occupancies"},
+			pipeObl("VerifC02PolyTri2x2", "both", "O-5: a valid triangle whose routed boundary repeats no centre is returned as exactly that boundary, counter-clockwise", "n=3, 2x2 px window, all sub-pixel positions, id {0}", "non-collapsing"),
+			pipeObl("VerifC02PolyTri2x2L2", "thorough", "O-5 with two levels", "n=3, 2x2 px window, all sub-pixel positions, ids {0,1}", "non-collapsing"),
+			pipeObl("VerifC02PolyQuad2x2Half", "thorough", "O-5 for quadrilaterals on the half lattice", "n=4, 2x2 px window, positions {1/4,3/4}, ids {0,1}", "non-collapsing"),
 			{Harness: "VerifC02ChildrenTile", Pkg: "pointindex", Mode: "math", Tiers: "both", Internal: true, Covers: []string{"children-tile"},
 				Desc: "children extents partition the parent extent at its centre", Bounds: "deepest level 1..32 x every shallower level, pixel size 1..2^22, every pixel address, origin |c| <= 2^58"},
 		},
 		Regression: []string{"findings/C02-F1-corner-through.json", "findings/C02-F1-tip-on-exclusive-edge.json"},
+		Assumptions: pipeAssumptions,
 	}
+}
+
+var snapSubst = map[string]string{"pointindex.lineIntersects": "pointindex.verifLineIntersectsContract"}
+
+func specC01() *PropSpec {
+	return &PropSpec{
+		ID:       "C01",
+		NeedsGen: true,
+		Obligations: []Obligation{
+			{Harness: "VerifC01Tri2x2", Pkg: "snap", Mode: "math", Tiers: "both", Covers: []string{"snapped", "has-geometry"}, Subst: snapSubst,
+				Desc: "valid triangle, pixels in a 2x2 window straddling the root centre, all sub-pixel positions: no proper crossing", Bounds: "n=3, 2x2 px window, 2^-10 px lattice, id {0}, all flags"},
+			{Harness: "VerifC01Quad2x2", Pkg: "snap", Mode: "math", Tiers: "thorough", Covers: []string{"snapped", "has-geometry"}, Subst: snapSubst,
+				Desc: "valid quadrilateral, 2x2 window", Bounds: "n=4, 2x2 px window, 2^-10 px lattice, id {0}, all flags"},
+			{Harness: "VerifC01Tri3x3", Pkg: "snap", Mode: "math", Tiers: "thorough", Covers: []string{"snapped", "has-geometry"}, Subst: snapSubst,
+				Desc: "valid triangle, 3x3 window", Bounds: "n=3, 3x3 px window, 2^-10 px lattice, id {0}, all flags"},
+			{Harness: "VerifC01Tri2x2TwoLevels", Pkg: "snap", Mode: "math", Tiers: "thorough", Covers: []string{"snapped", "has-geometry"}, Subst: snapSubst,
+				Desc: "valid triangle, 2x2 window, ids {0,1}", Bounds: "n=3, 2x2 px window, 2^-10 px lattice, ids {0,1}, all flags"},
+		},
+	}
+}
+
+func pipeObl(h, tiers, desc, bounds string, covers ...string) Obligation {
+	return Obligation{Harness: h, Pkg: "snap", Mode: "math", Tiers: tiers, Covers: covers, Subst: snapSubst, Desc: desc, Bounds: bounds}
+}
+
+var pipeAssumptions = []string{
+	"synthetic dyadic grid (root tile of 16 units, tile matrix z = 16*2^z pixels per axis), on which every float operation of the pipeline is exact; exactness is checked per operation by interval side-conditions and a path that cannot establish it is reported as inconclusive",
+	"pixel addresses of the vertices are case-split inside the stated window; sub-pixel positions are symbolic on the stated lattice",
+	"pointindex.lineIntersects is replaced by its exact oracle (justified by C02 O-0, which proves them equal for all integer inputs on the current tree)",
+	"map iteration in insertion order unless stated (C07 quantifies over orders)",
+}
+
+var pipeOutside = []string{
+	"polygons with more vertices / larger windows / more rings than stated", "non-dyadic (real) grids for the whole pipeline (covered at kernel level by C02/C03/C09)",
+	"tile matrices deeper than id 2 of the synthetic set",
+}
+
+func specC04() *PropSpec {
+	return &PropSpec{ID: "C04", NeedsGen: true, Assumptions: pipeAssumptions, Outside: pipeOutside,
+		Obligations: []Obligation{
+			pipeObl("VerifC04Tri2x2", "both", "valid triangle: vertex provenance, edges within half a pixel of an input edge, coverage agreement at a symbolic probe location", "n=3, 2x2 px window, all sub-pixel positions (2^-10 px), id {0}, all flags; probe anywhere on the lattice within 2 px of the window", "checked", "has-geometry"),
+			pipeObl("VerifC04Quad2x2Half", "thorough", "valid quadrilateral, half lattice", "n=4, 2x2 px window, sub-pixel positions {1/4,3/4}, ids {0,1}", "checked", "has-geometry"),
+		}}
+}
+
+func specC05() *PropSpec {
+	return &PropSpec{ID: "C05", NeedsGen: true, Assumptions: pipeAssumptions, Outside: append([]string{"the repeated-vertex lookup on real (non-dyadic) grids (DESIGN F4)"}, pipeOutside...),
+		Obligations: []Obligation{
+			pipeObl("VerifC05Ring3", "both", "any 3-vertex ring (valid or not): orientation, no repeated vertices, size policy, keep = drop + points/lines (twin execution)", "n=3, 2x2 px window, sub-pixel positions on the 1/8 px lattice, id {0}, all flags", "checked"),
+			pipeObl("VerifC05Ring3Edgy", "both", "any 3-vertex ring on pixel borders/corners/centres, two levels", "n=3, 2x2 px window, sub-pixel positions {0,1/2}, ids {0,1}", "checked"),
+			pipeObl("VerifC05Ring4Centre", "both", "any 4-vertex ring on pixel centres, two levels", "n=4, 2x2 px window, pixel centres, ids {0,1}", "checked"),
+			pipeObl("VerifC05Ring3Full", "thorough", "any 3-vertex ring, all sub-pixel positions, two levels", "n=3, 2x2 px window, 2^-10 px lattice, ids {0,1}", "checked"),
+			pipeObl("VerifC05Ring4Edgy", "thorough", "any 4-vertex ring on pixel borders/corners/centres", "n=4, 2x2 px window, sub-pixel positions {0,1/2}, id {0}", "checked"),
+			pipeObl("VerifC05Ring5Centre", "thorough", "any 5-vertex ring on pixel centres", "n=5, 3x3 px window, pixel centres, ids {0,1}", "checked"),
+			pipeObl("VerifC05Hole", "thorough", "any shell + hole of 3 vertices each", "3+3 vertices, 2x2 px window, sub-pixel positions {0,1/2}, id {0}", "checked"),
+		}}
+}
+
+func specC06() *PropSpec {
+	return &PropSpec{ID: "C06", NeedsGen: true, Assumptions: pipeAssumptions, Outside: append([]string{"asymptotic running time (only: instruction budget not exceeded at these sizes)", "deepest level > 32 (Morton range)"}, pipeOutside...),
+		Obligations: []Obligation{
+			pipeObl("VerifC06Ring3", "both", "any 3-vertex ring: no panic, no budget overrun", "n=3, 2x2 px window, sub-pixel positions on the 1/8 px lattice, id {0}, all flags", "ran"),
+			pipeObl("VerifC06Ring3Edgy", "both", "any 3-vertex ring on pixel borders/corners/centres, two levels", "n=3, 2x2 px window, sub-pixel positions {0,1/2}, ids {0,1}", "ran"),
+			pipeObl("VerifC06Ring4Centre", "both", "any 4-vertex ring on pixel centres (repeated vertices, spikes, zig-zags), two levels", "n=4, 2x2 px window, pixel centres, ids {0,1}", "ran"),
+			pipeObl("VerifC06Ring3Full", "thorough", "any 3-vertex ring, all sub-pixel positions, two levels", "n=3, 2x2 px window, 2^-10 px lattice, ids {0,1}", "ran"),
+			pipeObl("VerifC06Tiny", "both", "rings of one and two points", "n=1..2, 2x2 px window, all sub-pixel positions", "ran"),
+			pipeObl("VerifC06Ring4Edgy", "thorough", "any 4-vertex ring on pixel borders/corners/centres (repeated vertices, spikes, zig-zags included)", "n=4, 2x2 px window, sub-pixel positions {0,1/2}, id {0}", "ran"),
+			pipeObl("VerifC06Ring5Centre", "thorough", "any 5-vertex ring on pixel centres", "n=5, 3x3 px window, pixel centres, ids {0,1}", "ran"),
+			pipeObl("VerifC06Hole", "thorough", "any shell + hole of 3 vertices each", "3+3 vertices, 2x2 px window, sub-pixel positions {0,1/2}, id {0}", "ran"),
+		}}
+}
+
+func specC07() *PropSpec {
+	mo := pipeObl("VerifC07MapOrder", "both", "two executions, the second with a nondeterministic iteration order of every map range (forward/reversed, at most one reversed range per path)", "n=3 (any ring), 2x2 px window, sub-pixel positions {0,1/2}, ids {0,1}, all flags", "twice")
+	mo2 := pipeObl("VerifC07MapOrderEdgy4", "thorough", "same for any 4-vertex ring on pixel centres, up to two reversed ranges per path", "n=4, 2x2 px window, pixel centres, ids {0,1}", "twice")
+	mo2.MapOrderBudget = 2
+	return &PropSpec{ID: "C07", NeedsGen: true, Assumptions: pipeAssumptions,
+		Outside: append([]string{"map iteration orders other than forward/reversed insertion order per range execution; more reversed ranges per path than stated", "goroutine scheduling (SnapPolygon starts no goroutines)"}, pipeOutside...),
+		Obligations: []Obligation{
+			mo, mo2,
+			pipeObl("VerifC07RingDirection", "both", "valid ring given in either direction => identical result", "n=3..4, 2x2 px window, sub-pixel positions {1/4,3/4}, ids {0,1}, all flags", "both-directions"),
+			pipeObl("VerifC07RingDirectionHole", "thorough", "square shell with triangular hole, any subset of rings reversed", "hole n=3 in 2x2 px window, positions {1/4,3/4}, id {0}", "both-directions"),
+			pipeObl("VerifC07ReverseFlag", "both", "reverse flag only reverses every ring of 3+ vertices", "n=3..4 (any ring), 2x2 px window, positions {0,1/2}, ids {0,1}, keep on/off", "both-flags"),
+		}}
+}
+
+func specC08() *PropSpec {
+	return &PropSpec{ID: "C08", NeedsGen: true, Assumptions: pipeAssumptions, Outside: append([]string{"built-in round grids (NetherlandsRDNewQuad): only the integer arithmetic lemma level, not the pipeline"}, pipeOutside...),
+		Obligations: []Obligation{
+			pipeObl("VerifC08Levels", "both", "result for a tile matrix alone == together with another one (twin executions), keys = requested ids", "n=3 (any ring), 2x2 px window, sub-pixel positions {0,1/2}, pairs {0,1},{0,2},{1,2},{1,0}, all flags", "compared"),
+			pipeObl("VerifC08LevelsEdgy4", "thorough", "same for any 4-vertex ring on pixel centres", "n=4, 2x2 px window, pixel centres", "compared"),
+			pipeObl("VerifC08LevelsEighth", "thorough", "same for any 3-vertex ring on the 1/8 px lattice", "n=3, 2x2 px window, 1/8 px lattice", "compared"),
+		}}
+}
+
+func specC18() *PropSpec {
+	return &PropSpec{ID: "C18", NeedsGen: true, Assumptions: pipeAssumptions, Outside: pipeOutside,
+		Obligations: []Obligation{
+			pipeObl("VerifC18Tri2x2", "both", "valid triangle, routed boundary visits no centre more than twice: every returned edge is a routed edge or straight run, holes in shell, signed area preserved", "n=3, 2x2 px window, all sub-pixel positions, id {0}, reverse on/off", "premise-holds"),
+			pipeObl("VerifC18Tri2x2L2", "thorough", "same with two levels", "n=3, 2x2 px window, all sub-pixel positions, ids {0,1}", "premise-holds"),
+			pipeObl("VerifC18Quad2x2Half", "thorough", "valid quadrilateral on the half lattice", "n=4, 2x2 px window, positions {1/4,3/4}, ids {0,1}", "premise-holds", "collapsing"),
+			pipeObl("VerifC18Pent3x3Centre", "thorough", "valid pentagon on pixel centres", "n=5, 3x3 px window, pixel centres, id {0}", "premise-holds"),
+		}}
+}
+
+func specC03() *PropSpec {
+	return &PropSpec{ID: "C03", NeedsGen: true, Assumptions: pipeAssumptions, Outside: pipeOutside,
+		Obligations: []Obligation{
+			{Harness: "VerifC03CentresQuick", Pkg: "pointindex", Mode: "math", Tiers: "quick", Internal: true, Covers: []string{"centre"},
+				Desc: "pixel extent/centre arithmetic for a symbolic pixel address; float centre within the reported deviation of the ideal centre", Bounds: "7 accepted built-in sets x deepest id {0,mid,max} x requested id {0,mid,deepest} (levels <= 32), every pixel address"},
+			{Harness: "VerifC03CentresThorough", Pkg: "pointindex", Mode: "math", Tiers: "thorough", Internal: true, Covers: []string{"centre"},
+				Desc: "same for every (deepest id, requested id) pair", Bounds: "7 accepted built-in sets x all (d,z) pairs with level <= 32, every pixel address"},
+			pipeObl("VerifC03Levels", "both", "every returned coordinate of tile matrix z is exactly a pixel centre of level z+4 of the synthetic grid (all 7 id subsets, all flags)", "n=3 (any ring), 2x2 px window, sub-pixel positions {0,1/2}", "checked"),
+		}}
+}
+
+func specC14() *PropSpec {
+	return &PropSpec{ID: "C14", NeedsGen: true,
+		Assumptions: []string{"PointOfOrigin is non-nil (guaranteed by the decoder's required-validation; a nil origin is outside the property)", "tile matrix id 0 is present in the symbolic sets (IsQuadTree does not check where the ids start)"},
+		Outside:     []string{"sets with more than 4 tile matrices (every condition is per matrix or per consecutive pair, so first/interior/last positions are all exercised)", "more than one position with malformed discrete fields at a time"},
+		Obligations: []Obligation{
+			{Harness: "VerifC14Symbolic", Pkg: "pointindex", Mode: "bits", Tiers: "both", Covers: []string{"accepted", "rejected"},
+				Desc: "symbolic tile matrix set of 1..4 matrices: accepted => every quadtree condition; never panics", Bounds: "all 64-bit widths/heights, all float64 cell sizes and origins (NaN, Inf included), one position with free id string / corner / variable widths / id gap"},
+			{Harness: "VerifC14BuiltIns", Pkg: "pointindex", Mode: "bits", Tiers: "both", Internal: true, Covers: []string{"builtin-accepted", "builtin-rejected"},
+				Desc: "each of the 14 built-in sets: rejected, or accepted with pixel size = cell size/16 at every id (concrete evaluation through the interpreter)", Bounds: "14 built-in sets x all ids with level <= 32"},
+		}}
+}
+
+func specC15() *PropSpec {
+	return &PropSpec{ID: "C15", NeedsGen: true,
+		Assumptions: []string{"amd64 float->uint conversion for in-range values (the code checks x < 0 and x >= width first)", "tms20's package initialiser (EPSG axis table, regular expressions) is executed by the interpreter; regular expressions are evaluated natively on concrete strings"},
+		Outside:     []string{"interior points other than tile centres and points half a tile outside (points within a few ulp of a tile border can be misaddressed: DESIGN F6, not covered)", "tile columns/rows farther than 256 from the matrix borders in matrices wider than 16 tiles"},
+		Obligations: []Obligation{
+			{Harness: "VerifC15SmallMatrices", Pkg: "tms20", Mode: "bits", Tiers: "both", Covers: []string{"roundtrip"},
+				Desc: "every tile of every matrix up to 16x16 tiles (ids 0..3) of every built-in set without variable widths: corner -> centre -> same tile; half a tile outside -> no tile", Bounds: "14 built-in sets, ids 0..3, all tiles"},
+			{Harness: "VerifC15BorderSlicesQuick", Pkg: "tms20", Mode: "bits", Tiers: "quick", Covers: []string{"roundtrip"}, TimeoutMs: 120000,
+				Desc: "symbolic tile address in 256x256 corner slices of one deep matrix of RD, WebMercator and CRS84 (exact IEEE-754 semantics)", Bounds: "3 sets x 1 matrix x 4 corner slices of 256x256 tiles"},
+			{Harness: "VerifC15BorderSlicesThorough", Pkg: "tms20", Mode: "bits", Tiers: "thorough", Covers: []string{"roundtrip"}, TimeoutMs: 300000,
+				Desc: "same for every matrix >= 256 tiles wide of every built-in set", Bounds: "all built-in sets x all matrices >= 256 wide x 4 corner slices of 256x256 tiles"},
+			{Harness: "VerifC15BoundingBox", Pkg: "tms20", Mode: "bits", Tiers: "both", Covers: []string{"bbox"},
+				Desc: "bounding box spans corner of tile (0,0) to corner of tile (width,height) in x,y order; ToNative accepts one past the end and rejects beyond", Bounds: "all built-in sets x all matrices without variable widths (concrete evaluation through the interpreter)"},
+		}}
+}
+
+func specC10() *PropSpec {
+	return &PropSpec{ID: "C10", NeedsGen: false,
+		Assumptions: []string{"the pipeline is a Kahn process network (every channel has one sender and one receiver, no select, no shared mutable state between stages): its results do not depend on the schedule; the executor runs one canonical schedule (run until blocked, lowest goroutine id first)",
+			"sync.WaitGroup and unbuffered channels are modelled by the executor; log/fmt calls are no-ops"},
+		Outside: []string{"streams longer than 2 (quick) / 3 (thorough) features, more than 2 / 3 targets, multipolygons of more than 2 parts", "data races and runtime-level goroutine leaks"},
+		Obligations: []Obligation{
+			{Harness: "VerifC10Stream", Pkg: "processing", Mode: "math", Tiers: "quick", Covers: []string{"returned"},
+				Desc: "all streams of up to 2 features (polygon / multipolygon of 1-2 parts / point) x 1-2 targets x every stub snapping outcome (absent, one, two polygons per polygon and tile matrix): each target receives exactly the expected features, in order, with original attributes and the geometry for its tile matrix", Bounds: "k<=2, targets<=2"},
+			{Harness: "VerifC10StreamLong", Pkg: "processing", Mode: "math", Tiers: "thorough", Covers: []string{"returned"}, MaxPaths: 400000,
+				Desc: "same for up to 3 features and 3 targets", Bounds: "k<=3, targets<=3"},
+		}}
+}
+
+func specC11() *PropSpec {
+	s := specC10()
+	s.ID = "C11"
+	for i := range s.Obligations {
+		s.Obligations[i].Cuts = true
+		s.Obligations[i].Desc += "; plus, per path, SMT queries over all consistent cuts of the synchronisation events: no reachable deadlock, ProcessFeatures cannot return while a goroutine is unfinished; Kahn premises checked on the log"
+	}
+	s.Outside = append(s.Outside, "schedules other than the canonical one are covered only through the Kahn-network argument, whose three structural premises are checked on the event log of every path", "races, goroutines alive after return in the real runtime, GOMAXPROCS effects")
+	return s
 }
